@@ -197,6 +197,14 @@ def build(t):
         # the static extents are given as numpy integers (a shape computed with numpy), in the tuple form of indexing
         it = build(t[1])
         c = it[tuple(slice(None) if d is None else np.int64(d) for d in t[2])]
+    elif k == "A" and DECL[0] == "named-subclass" and not _in_named[0]:
+        # the array class is given a name by subclassing the class made by indexing: class Line(Elem[:]): pass
+        _in_named[0] = True
+        try:
+            base = build_plain_array(t)
+        finally:
+            _in_named[0] = False
+        c = type("Nm" + tname(t), (base,), {})
     elif k == "A":
         it = build(t[1])
         ident = tuple(t[3]) == tuple(range(len(t[2])))
@@ -205,6 +213,11 @@ def build(t):
         else:
             idx = tuple(slice(d, o) for d, o in zip(t[2], t[3]))
         c = it[idx if len(idx) > 1 else idx[0]]
+    elif k == "St" and DECL[0] == "shared-fields" and any(is_dyn(ft) for _, ft in t[1]):
+        # the Field objects of the struct are TAKEN OVER from a donor struct in which a string comes first, so that every
+        # dynamic field of the struct is a later dynamic field there (class Taker: samples = Donor.samples)
+        donor = type("Dn" + tname(t), (xo.Struct,), dict({"zz_first": xo.Field(xo.String, default="donor")}, **{n: xo.Field(build(ft)) for n, ft in t[1]}))
+        c = type("St" + tname(t), (xo.Struct,), {n: getattr(donor, n) for n, ft in t[1]})
     elif k == "St":
         c = type("St" + tname(t), (xo.Struct,), {n: build(ft) for n, ft in t[1]})
     elif k == "R":
@@ -215,6 +228,17 @@ def build(t):
         raise ValueError(t)
     _cache[(t, DECL[0])] = c
     return c
+
+
+_in_named = [False]
+
+
+def build_plain_array(t):
+    """the array class of t made by indexing, whatever the declaration style (not cached)"""
+    it = build(t[1])
+    ident = tuple(t[3]) == tuple(range(len(t[2])))
+    idx = tuple(slice(None) if d is None else d for d in t[2]) if ident else tuple(slice(d, o) for d, o in zip(t[2], t[3]))
+    return it[idx if len(idx) > 1 else idx[0]]
 
 
 DECL = ["index"]  # how array classes are made: "index" (ItemType[shape]) or "subclass" (declared); a shard sets it for its process
@@ -637,6 +661,19 @@ def top_handle(t, obj):
 # reader (public accessors)
 
 
+def ndindex(shape):
+    """np.ndindex for a shape that comes from a live handle or from buffer words: a garbage shape (a mis-read header)
+    must raise at once; np.ndindex itself would spend hours inside C code, out of reach of the watchdog"""
+    n = 1
+    for s_ in shape:
+        if int(s_) < 0:
+            raise ReadMismatch("negative extent in shape %r" % (tuple(shape),))
+        n *= int(s_)
+    if n > 1000000:
+        raise ReadMismatch("shape %r cannot be real (more than 10^6 items)" % (tuple(shape),))
+    return np.ndindex(*[int(s_) for s_ in shape])
+
+
 class ReadMismatch(Exception):
     pass
 
@@ -659,7 +696,7 @@ def read(t, x, deep=True):
     if k == "A":
         shape = tuple(int(s) for s in x._shape)
         items = {}
-        for idx in np.ndindex(*shape):
+        for idx in ndindex(shape):
             items[idx] = read(t[1], x[idx if len(idx) > 1 else idx[0]], deep)
         if len(shape) == 1 and shape[0] > 0:  # integer index of numpy type too
             v2 = read(t[1], x[np.int64(shape[0] - 1)], deep)
@@ -677,7 +714,7 @@ def read(t, x, deep=True):
                     raise ReadMismatch("%s shape %r != %r" % (meth, tuple(a.shape), shape))
                 if a.dtype != np.dtype(NPDT[t[1][1]]):
                     raise ReadMismatch("%s dtype %r" % (meth, a.dtype))
-                for idx in np.ndindex(*shape):
+                for idx in ndindex(shape):
                     if not veq(pyval(a[idx]), items[idx]):
                         raise ReadMismatch("%s()[%r]=%r but item access gives %r" % (meth, idx, pyval(a[idx]), items[idx]))
         return {"shape": shape, "items": items}
@@ -746,7 +783,7 @@ def mem_strides(shape, order, isz):
 
 def mem_indices(shape, order):
     """index tuples in memory order (order[0] slowest)"""
-    for midx in np.ndindex(*[shape[a] for a in order]):
+    for midx in ndindex([shape[a] for a in order]):
         idx = [0] * len(shape)
         for a, i in zip(order, midx):
             idx[a] = i
@@ -940,7 +977,7 @@ def decode(t, b, o, parts=None, path=(), lo=0, hi=None, follow=True, issues=None
                 cur = ioff + sz
             end = slot(cur)
         else:
-            for idx in np.ndindex(*shape):
+            for idx in ndindex(shape):
                 pos = sum(i * s for i, s in zip(idx, strides))
                 v, _ = decode(it, b, o + off + pos, parts, path + (idx,), lo, ahi, follow, issues)
                 items[idx] = v
